@@ -256,7 +256,7 @@ def cases():
     for c in range(chunks):
         out.append({'label': '2lev/len<=2/chunk%d' % c, 'retained': c == 0, 'mesh': m2, 'geom': geoms[c % 2], 'time': [0.1, 1.3924182125972017e-08][c % 2], 'extra': c % 2,
                     'layout1': families.scatter_layouts(m2, rnd, 2), 'layout2': families.scatter_layouts(m2, rnd, 2), 'seqs': allseq[c::chunks]})
-    nrand = 16 if tier == 'quick' else 800
+    nrand = 16 if tier == 'quick' else 2400
     rs = []
     for _ in range(nrand):
         L = rnd.choice([3, 4])
